@@ -26,7 +26,8 @@ RULE = ("Cases = (integrand with a closed-form integral, HISTORY of 2..7 quad ca
         "/ erf / incomplete gamma evaluated with the frozen reference mpmath 1.3.0 at 2p+80 and 3p+100 bits, which must "
         "agree). Tolerance |got - I| <= 2^(10-p) * max(1, |I|, S) where S estimates the integral of the sum of |term| "
         "over the path (length * max over sample points; Riemann sum over 80 decay lengths on infinite paths). A result "
-        "outside the tolerance is a violation when quad's own error estimate is below the tolerance (value:*) or when the "
+        "outside the tolerance is a violation when quad's own error estimate is below the tolerance (value:*; estimator:* "
+        "when the same call at p+64 bits is accurate, i.e. only the stopping rule failed) or when the "
         "integrand is in the easy core of the domain ((|a|+|b|) L <= 12, no rational/Gaussian factor; noconv:*); with a "
         "large reported error on the harder rim it is inconclusive. Metamorphic: reversed path negates, split path "
         "agrees (2x tolerance, same precision and API); a call repeated later in the history must still be within "
@@ -1056,6 +1057,19 @@ def _inner_error_hidden(mp, f, mpts, tol, mr, api):
     return False
 
 
+def _converges_above(mp, mpmath, api, case, pts, st, p, mr, I, tol):
+    try:
+        mp.prec = p + 64
+        f = _integrand_mp(mp, case)
+        mpts = [[_point_mp(mp, pt, st["py"]) for pt in q] for q in pts]
+        v = _call(mp, mpmath, api, f, mpts, False)
+        return abs(_ref_of(mr, v) - I) <= tol
+    except ZeroDivisionError:
+        return False
+    finally:
+        mp.prec = p
+
+
 def _domain(case, pts):
     dim = case["dim"]
     if dim > 1:
@@ -1216,6 +1230,12 @@ def check_case(case):
                         res.inconclusive = True
                         if _DEBUG:
                             print("INCONCLUSIVE", detail)
+                elif _converges_above(mp, mpmath, api, case, pts, st, p, mr, I2, tol):
+                    # root-cause split only (not an oracle): the same call at p+64 bits is within the p-bit tolerance,
+                    # so nodes and transformation are sound and the iteration at p was stopped by an
+                    # over-optimistic error estimate
+                    res.bad("estimator:%s:%s" % (rule, dom), "error estimate far below the actual error (the same "
+                            "call at %d bits is accurate): %s" % (p + 64, detail))
                 else:
                     res.bad("value:%s:%s" % (rule, dom), detail)
             if key not in results:
